@@ -96,6 +96,18 @@ def replay_rho_bg_std(model):
                                                           f"(T_sc={m['tstd']!r} F, p_sc={m['pstd']!r} psia)", "inputs": m}
 
 
+def replay_rho_bg_default(model):
+    """density x Bg x 5.615 with Bg's standard conditions left to their defaults, against M p_sc / (R T_sc) at the library's
+    standard conditions (bluebonnet.fluids.fluid.TEMPERATURE_STANDARD / PRESSURE_STANDARD)."""
+    from bluebonnet.fluids import gas
+    import bluebonnet.fluids.fluid as rfl
+    m = model_floats(model, ["T", "p1", "Tpc", "ppc", "sg"], default=dict(T=250.0, p1=3000.0, Tpc=-80.0, ppc=650.0, sg=0.7))
+    got = gas.density_DAK(m["T"], m["p1"], m["Tpc"], m["ppc"], m["sg"]) * gas.b_factor_DAK(m["T"], m["p1"], m["Tpc"], m["ppc"]) * 5.615
+    want = 28.964 * m["sg"] * rfl.PRESSURE_STANDARD / (10.73159 * (rfl.TEMPERATURE_STANDARD + 459.67))
+    return abs(got - want) > 1e-9 * abs(want), {"what": f"density*Bg*5.615 with Bg's default standard conditions = {got!r} vs M p_sc/(R T_sc) = {want!r} at the library's "
+                                                          f"standard conditions ({rfl.TEMPERATURE_STANDARD!r} F, {rfl.PRESSURE_STANDARD!r} psia)", "inputs": m}
+
+
 def replay_visc(model):
     from bluebonnet.fluids import gas
     m = model_floats(model, ["T", "Tpc", "ppc", "sg", "rho1", "rho2"])
@@ -140,15 +152,25 @@ def job_gas_density(job):
                   tstd=(32, 100), pstd=(10, 20))
     T_, p1, p2, Tpc, ppc, sg = (vs[k] for k in ("T", "p1", "p2", "Tpc", "ppc", "sg"))
 
+    hold = {}
+
     def run():
         d1 = gas.density_DAK(T_, p1, Tpc, ppc, sg)
         d2 = gas.density_DAK(T_, p2, Tpc, ppc, sg)
         b1 = gas.b_factor_DAK(T_, p1, Tpc, ppc, vs["tstd"], vs["pstd"])
         b2 = gas.b_factor_DAK(T_, p2, Tpc, ppc, vs["tstd"], vs["pstd"])
+        hold["b_default"] = gas.b_factor_DAK(T_, p1, Tpc, ppc)      # standard conditions left to the library
         return d1, d2, b1, b2
 
+    import bluebonnet.fluids.fluid as _rfl
+    lib_t, lib_p = K(repr(_rfl.TEMPERATURE_STANDARD)), K(repr(_rfl.PRESSURE_STANDARD))
     for k, pr in enumerate(paths(job, run, dom)):
         d1, d2, b1, b2 = pr.value
+        # called without standard conditions, Bg refers to the library's own (fluid.TEMPERATURE_STANDARD / PRESSURE_STANDARD,
+        # the ones the facade and the oil correlations use): one standard cubic foot holds the same mass on every route
+        job.prove(f"gas/density*Bg with the default standard conditions==M p_sc/(R T_sc) at the library's standard conditions[path{k}]",
+                  pr.pc + [not_close(d1 * hold["b_default"] * K("5.615"), K("28.964") * sg * lib_p / (K("10.73159") * (lib_t + K("459.67"))))],
+                  bound=f"gas box, library standard conditions {_rfl.TEMPERATURE_STANDARD!r} F, {_rfl.PRESSURE_STANDARD!r} psia", replay=replay_rho_bg_default)
         want = p1 * K("28.964") * sg / (zuf(T_, p1, Tpc, ppc) * K("10.73159") * (T_ + K("459.67")))
         job.prove(f"gas/density==pM/(ZRT)[path{k}]", pr.pc + [not_close(d1, want)], bound="gas box",
                   replay=lambda m: replay_density({**m, "p": m.get("p1")}))
